@@ -58,8 +58,18 @@ func (p *Prog) resolveDyn(mi *modInfo) KeySet {
 		for f := range p.addrTaken {
 			if sigMatches(f.Signature, sig) {
 				if mi.owner != nil {
-					if tg, ok := p.vtaCallees[mi.owner]; ok && !tg[f] {
-						continue
+					if tg, ok := p.vtaCallees[mi.owner]; ok {
+						// VTA reports bound-method wrappers; f is the method itself
+						found := false
+						for t := range tg {
+							if t == f || unwrapSynthetic(t) == f {
+								found = true
+								break
+							}
+						}
+						if !found {
+							continue
+						}
 					}
 				}
 				ks.AddAll(p.ModSets[f])
